@@ -76,15 +76,45 @@ fn precondition(pre: &Value, dim: usize) -> Option<AffTree<2>> {
     }
 }
 
+/// divides every decision predicate by the largest power of two that divides all of its entries (exact; the half-space is unchanged)
+fn reduce_pow2(t: &AffTree<2>) -> AffTree<2> {
+    let mut c = t.clone();
+    let idxs: Vec<usize> = c.tree.decision_indices().collect();
+    for i in idxs {
+        let nd = c.tree.node_value_mut(i).unwrap();
+        let vals: Vec<f64> = nd.aff.mat.iter().chain(nd.aff.bias.iter()).cloned().filter(|v| *v != 0.0).collect();
+        if vals.is_empty() || vals.iter().any(|v| v.fract() != 0.0 || v.abs() > 9.0e15) { continue; }
+        let mut e = 0;
+        while e < 60 && vals.iter().all(|v| (v / 2f64.powi(e + 1)).fract() == 0.0) { e += 1; }
+        if e > 0 { let f = 2f64.powi(-e); nd.aff.mat.mapv_inplace(|x| x * f); nd.aff.bias.mapv_inplace(|x| x * f); }
+    }
+    c
+}
+
 pub fn run_distill(sc: &Value, id: usize, out: Out) {
     let q = sc.get("q").and_then(|v| v.as_f64()).unwrap_or(1.0);
     let dim = us(&sc["dim"]);
-    let layers: Vec<Layer> = sc["layers"].as_array().unwrap().iter().map(layer_from).collect();
+    let mut layers: Vec<Layer> = sc["layers"].as_array().unwrap().iter().map(layer_from).collect();
+    // "wscale": the first linear layer is multiplied by 2^k. For positively homogeneous activations followed by an argmax / class head
+    // the network function is unchanged, but all numbers inside the tree are ill-conditioned; decisions are logged reduced by powers of two
+    let wscale = sc.get("wscale").and_then(|v| v.as_i64()).unwrap_or(0) as i32;
+    if wscale != 0 {
+        // first linear layer: weights and bias times 2^k; later linear layers: bias times 2^k (the outputs of every layer are scaled by 2^k)
+        let f = 2f64.powi(wscale);
+        let mut first = true;
+        for l in layers.iter_mut() {
+            if let Layer::Linear(a) = l {
+                if first { a.mat.mapv_inplace(|x| x * f); first = false; }
+                a.bias.mapv_inplace(|x| x * f);
+            }
+        }
+    }
     let r = guarded(|| afftree_from_layers(dim, &layers, precondition(&sc["pre"], dim)));
     match r {
-        Ok(t) => out(json!({"fam": "distill", "sc": id, "first": true, "q": q as i64, "dim": dim, "layers": sc["layers"], "pre": sc["pre"], "res": "ok",
-                            "tree": tree_json(&t, q), "grid": eval_grid(&t, q, 2, 4), "num_terminals": t.num_terminals(), "len": t.len()})),
-        Err(_) => out(json!({"fam": "distill", "sc": id, "first": true, "q": q as i64, "dim": dim, "layers": sc["layers"], "pre": sc["pre"], "res": "panic",
+        Ok(t) => out(json!({"fam": "distill", "sc": id, "first": true, "q": q as i64, "dim": dim, "layers": sc["layers"], "pre": sc["pre"], "res": "ok", "wscale": wscale,
+                            "tree": if wscale != 0 { tree_json(&reduce_pow2(&t), q) } else { tree_json(&t, q) },
+                            "grid": eval_grid(&t, q, 2, 4), "num_terminals": t.num_terminals(), "len": t.len()})),
+        Err(_) => out(json!({"fam": "distill", "sc": id, "first": true, "q": q as i64, "dim": dim, "layers": sc["layers"], "pre": sc["pre"], "res": "panic", "wscale": wscale,
                              "tree": none(), "grid": none(), "num_terminals": 0, "len": 0})),
     }
 }
